@@ -284,7 +284,10 @@ func (n *Name) Substitute(old, new Name) {
 			n.Ident = new.Ident
 			n.ChannelID = new.ChannelID
 		}
-	} else if !n.Initialized() && !old.Initialized() && n.Ident == old.Ident {
+	} else if !n.Initialized() && !old.Initialized() && n.Ident == old.Ident && (!n.IsSelf || old.IsSelf) {
+		// A reference to 'self' only carries an identifier for display (or, in a function with an explicit
+		// provider name, the name of that provider): it is replaced when the provider itself is
+		// substituted, never because an ordinary bound name happens to have the same identifier
 		n.Ident = new.Ident
 		n.Channel = new.Channel
 		n.ChannelID = new.ChannelID
